@@ -20,6 +20,7 @@ func init() {
 			"F4 every _complete written by mrp for a fork is dominated by successful output validation (or nothing to validate); the join runs only if every chunk's outs were read and verified; a _stage_defs parse error is reported, " +
 			"F5 a failed node never releases its post-nodes and Pipestance.GetState reports Complete only if every node is complete/disabled, " +
 			"F6 mrp exits with success status only from the completed-cleanup path. " +
+			"F7 a verdict-returning function that records a job failure returns false afterwards, F8 a function replacing a live fork's metadata objects drops the cached metadata list, F9 every fork metadata object into which mrp writes _errors is cleared by the partial reset (one known finding: Fork.metadata). " +
 			"NOT decided: error text naming the stage, retry classification, the Python adapter.",
 		Assumptions: commonAssumptions,
 	}
